@@ -305,7 +305,11 @@ Qed.
 Lemma resolve_world_low w o :
   option_map low_resolved (resolve_world (low_world w) o) = option_map low_resolved (resolve_world w o).
 Proof.
-  unfold resolve_world, low_world. cbn [w_layers w_env]. rewrite merge_layers_low. apply resolve_low.
+  unfold resolve_world, load_config, low_world. cbn [w_layers w_env w_misfit].
+  destruct (w_misfit w) as [q|]; cbn [option_map].
+  - (* the merged document does not fit the schema: both sides work with the default configuration *)
+    change empty_config with (low_config empty_config) at 1. apply resolve_low.
+  - rewrite merge_layers_low. apply resolve_low.
 Qed.
 
 (* ---- (B4) the start-up configuration read from the environment -------------------------------- *)
@@ -438,6 +442,49 @@ Proof.
   intros. split; [symmetry; apply run_low | symmetry; apply doctor_low].
 Qed.
 
+(* ---- the schema stage: a merged document that does not fit the typed schema ------------------- *)
+(* the whole diagnostic report (per-source error texts + summary) is a function of the low projection - for worlds whose
+   merged document misfits too, whatever scalar sits at the offending position *)
+Theorem doctor_report_low w : doctor_report (low_world w) = doctor_report w.
+Proof. unfold doctor_report, source_errors. rewrite doctor_low. reflexivity. Qed.
+
+Theorem doctor_report_noninterference : forall w1 w2,
+  low_world w1 = low_world w2 -> doctor_report w1 = doctor_report w2.
+Proof. intros w1 w2 L. rewrite <- (doctor_report_low w1), <- (doctor_report_low w2), L. reflexivity. Qed.
+
+(* a misfit drops EVERY layer: the summary is the one of the layer-less world *)
+Lemma misfit_drops_layers ls e o q : doctor (mkWorld ls e o (Some q)) = doctor (mkWorld [] e o None).
+Proof. reflexivity. Qed.
+
+(* two worlds that differ only in the secret written at the mis-shaped position (`"headers": "X-Api-Key: <secret>"`) *)
+Definition misfit_world (q : str) : world :=
+  mkWorld [mkLayer [(lit "acme", mkPatch (Some (lit "http://127.0.0.1:9/v1/responses")) (Some (KInline (lit "sk-inline"))) [])]
+                   (Some (lit "acme/m1")) None None None None]
+          [(E_ENDPOINT, lit "http://127.0.0.1:9/v1/responses")] no_ovr (Some q).
+Definition misfit_q1 : str := lit "X-Api-Key: tok-AAAA".
+Definition misfit_q2 : str := lit "X-Api-Key: tok-BBBB".
+Lemma misfit_low_equal : low_world (misfit_world misfit_q1) = low_world (misfit_world misfit_q2).
+Proof. vm_compute. reflexivity. Qed.
+Lemma misfit_doctor :
+  doctor_report (misfit_world misfit_q1)
+  = ([], Some (mkDoctor None None (lit "http://127.0.0.1:9/v1/responses") None false None [] false false None)).
+Proof. vm_compute. reflexivity. Qed.
+(* had the schema error been surfaced through the per-source report (the idiom of the neighbouring parse-error branch),
+   the diagnostic would depend on the secret: that flow must stay closed (T1: an error produced by deserialising
+   secret-bearing configuration is itself secret-tainted) *)
+Definition surfaced_noninterference : Prop :=
+  forall w1 w2, low_world w1 = low_world w2 -> source_errors_surfaced w1 = source_errors_surfaced w2.
+Theorem surfaced_noninterference_refuted : ~ surfaced_noninterference.
+Proof.
+  intro H. specialize (H _ _ misfit_low_equal). vm_compute in H. discriminate H.
+Qed.
+Lemma surfaced_quotes_the_scalar q w : w_misfit w = Some q ->
+  exists a b, source_errors_surfaced w = [a ++ q ++ b].
+Proof.
+  intro M. unfold source_errors_surfaced, serde_type_error. rewrite M.
+  exists (lit "invalid type: string """), (lit """, expected a map"). reflexivity.
+Qed.
+
 (* the low projection really forgets the secrets: replacing every inline key, every header value
    and every non-public environment value by ANY other values of the same blankness is invisible *)
 Definition same_blank (a b : str) : Prop := blank a = blank b.
@@ -506,14 +553,14 @@ Proof.
   cbn [option_map] in H. inversion H; subst d. clear H.
   exists r. split; [reflexivity|].
   unfold resolve_world, resolve in R.
-  destruct (resolve_endpoint (merge_layers (w_layers w)) (w_env w) no_ovr) as [ep|]; [|discriminate].
+  destruct (resolve_endpoint (load_config w) (w_env w) no_ovr) as [ep|]; [|discriminate].
   inversion R; subst r. clear R.
   cbn [doctor_of d_has_key d_key_source d_header_names d_provider_id d_route d_endpoint d_model d_stateless
        d_parallel d_followup r_provider_id r_route r_endpoint r_model r_headers r_key r_key_source r_stateless
        r_parallel r_followup].
-  destruct (resolve_keys_facts (w_env w) (provider_match (merge_layers (w_layers w)) ep) ep) as [NB SH].
+  destruct (resolve_keys_facts (w_env w) (provider_match (load_config w) ep) ep) as [NB SH].
   repeat split; try exact SH.
-  destruct (fst (resolve_keys (w_env w) (provider_match (merge_layers (w_layers w)) ep) ep)) as [v|] eqn:K;
+  destruct (fst (resolve_keys (w_env w) (provider_match (load_config w) ep) ep)) as [v|] eqn:K;
     [|reflexivity].
   cbn [is_some]. rewrite (NB v eq_refl). reflexivity.
 Qed.
@@ -523,7 +570,7 @@ Definition ex_patch (key hdr : str) : patch :=
   mkPatch (Some (lit "http://127.0.0.1:9/v1/responses")) (Some (KInline key)) [(lit "X-Api-Key", hdr)].
 Definition ex_world (key hdr envkey : str) : world :=
   mkWorld [mkLayer [(lit "acme", ex_patch key hdr)] (Some (lit "acme/m1")) None None None None]
-          [(E_DUMP, lit "1"); (lit "OPENROUTER_API_KEY", envkey)] no_ovr.
+          [(E_DUMP, lit "1"); (lit "OPENROUTER_API_KEY", envkey)] no_ovr None.
 Definition ex_script : script := outcome_script 7.
 Definition ex_run (key hdr envkey : str) : outputs :=
   run 40 ex_script true (ex_world key hdr envkey) (lit "hi") [IUser (lit "hi")].
@@ -693,7 +740,7 @@ Definition noninterference_full : Prop :=
 
 (* witness: start-up configuration from the environment, the provider asks the shell tool for the key variable *)
 Definition leak_world (key : str) : world :=
-  mkWorld [] [(E_ENDPOINT, lit "http://127.0.0.1:9/v1/responses"); (E_API_KEY, key)] no_ovr.
+  mkWorld [] [(E_ENDPOINT, lit "http://127.0.0.1:9/v1/responses"); (E_API_KEY, key)] no_ovr None.
 Definition leak_call : tcall := mkCall (lit "call_p") (lit "bash") (lit "{""command"":""printenv RIP_OPENRESPONSES_API_KEY""}").
 Definition leak_script : wscript :=
   mkWScript (fun _ => [])
